@@ -328,8 +328,12 @@ def messages(tier):
     out.append(('huge-header', b'Subject: ' + b'x' * 200000 + b'\r\n\r\nx'))
     out.append(('many-headers', b''.join(b'X-%d: v\r\n' % i for i in range(5000)) + b'\r\nx'))
     out.append(('deep-multipart', _deep(60)))
-    if tier != 'quick':
-        out.append(('deeper-multipart', _deep(400)))
+    out.append(('deeper-multipart', _deep(400)))
+    out.append(('deepest-multipart', _deep(3000)))
+    rfc = b'Subject: leaf\r\n\r\nleaf\r\n'
+    for i in range(400):
+        rfc = b'Content-Type: message/rfc822\r\n\r\n' + rfc
+    out.append(('deep-rfc822', rfc))
     return out
 
 
